@@ -44,6 +44,17 @@ CLAIMED = {
              "default parameters for 3..5 axes; thorough: full product to 4 axes): totality, printed==returned, and "
              "element-by-element faithfulness in the row order given by the spec's layout function.",
         note="TLC; harness parses numeric fields between frame characters; values chosen by the harness"),
+    "C03": dict(
+        level="model_checking", design="3/C03",
+        technique="TLA+ spec TmObject.tla (two live transform objects, every writer/operator as 'write one "
+                  "representation, derive the other' over value terms) model-checked by TLC; every TLC history "
+                  "(exhaustive to depth 2-3, simulated to depth 12) replayed on real tm objects and compared with "
+                  "RefEval of the spec terms",
+        text="TLC checks coherence, canonical form, read-back and slot independence on every history of the abstract "
+             "machine and exports the histories; the real objects are driven through each one and their matrix, "
+             "six-vector (through the exponential), shapes and accessors are compared with the spec state. Bounded "
+             "exhaustive + random; float meaning of terms comes from RefEval, not from TLC.",
+        note="TLC for structure; RefEval (numpy/scipy) for values; 5e-6 tolerance as stated in the property"),
 }
 
 NOT_YET = "check not built yet in this round (planned: see DESIGN.md section 3)"
